@@ -45,6 +45,7 @@ type Evt struct {
 	V      int64  `json:"v,omitempty"`
 	Sz     int64  `json:"sz,omitempty"`
 	ErrAPI bool   `json:"errapi,omitempty"` // GetWithError instead of Get
+	N      int    `json:"n,omitempty"`      // fill: number of keys K, K+1, ... (values V, V+1, ...)
 }
 
 func (e Evt) coq() string {
@@ -60,6 +61,8 @@ func (e Evt) coq() string {
 		return fmt.Sprintf("ECall %d %d %s", e.C, e.K, o)
 	case "resume":
 		return fmt.Sprintf("EResume %d", e.T)
+	case "fill":
+		return fmt.Sprintf("EFill %d %d %d (%d)%%Z (%d)%%Z", e.C, e.K, e.N, e.V, e.Sz)
 	case "resumesave":
 		return fmt.Sprintf("EResumeSave %d", e.T)
 	case "add":
@@ -119,6 +122,7 @@ type world struct {
 	dead    string // non-empty: the real code hung / misbehaved, stop driving
 	esz     uint64
 	feat    map[string]bool // schedule features, for the evidence distribution
+	lastRec int64
 }
 
 // hookPark: the goroutine that is to be parked at verifhook.At("cache.save.after-unlock") (the
@@ -154,6 +158,15 @@ func (w *world) waits() float64 {
 		panic(err)
 	}
 	return m.GetCounter().GetValue()
+}
+
+// recreated: metric MapsRecreated (payload maps rebuilt by Cache.Cleanup so far)
+func (w *world) recreated() int64 {
+	var m dto.Metric
+	if err := w.met.MapsRecreated.Write(&m); err != nil {
+		panic(err)
+	}
+	return int64(m.GetCounter().GetValue())
 }
 
 func enc(v int64) []byte {
@@ -309,6 +322,18 @@ func (w *world) do(e Evt) {
 		w.call(e)
 	case "resume":
 		w.resume(e.T, false)
+	case "fill":
+		// N sequential Gets of fresh keys, each loader runs at once (no goroutines, no parking)
+		c := w.caches[e.C]
+		for i := 0; i < e.N; i++ {
+			ran := false
+			v := c.Get(uint32(e.K+i), func() ([]byte, int) { ran = true; return enc(e.V + int64(i)), int(e.Sz) })
+			if !ran {
+				w.dead = fmt.Sprintf("fill: key %d was already cached", e.K+i)
+				return
+			}
+			w.thr = append(w.thr, &thr{c: e.C, k: e.K + i, kind: kVal, status: 0, val: dec(v)})
+		}
 	case "resumesave":
 		w.resume(e.T, true)
 	case "add":
@@ -339,7 +364,16 @@ func (w *world) do(e Evt) {
 	case "cleanup":
 		st := &cache.CleanStat{}
 		if w.cl.Cleanup(st) {
-			ret = []int64{1, int64(st.TotalSize), int64(st.SizeToClean), int64(st.GensCleaned), int64(st.BytesReleased), int64(st.BucketsCleaned)}
+			ret = []int64{1, int64(st.TotalSize), int64(st.SizeToClean), int64(st.GensCleaned), int64(st.BytesReleased), int64(st.BucketsCleaned), w.recreated()}
+			if n := w.recreated(); n > w.lastRec {
+				w.lastRec = n
+				w.feat["sched:payload-map-rebuilt"] = true
+				for _, t := range w.thr {
+					if t.status == 10 {
+						w.feat["sched:payload-map-rebuilt-while-creator-in-loader"] = true
+					}
+				}
+			}
 			w.epoch++
 			for i, t := range w.thr {
 				if t.status == 10 {
@@ -757,6 +791,86 @@ func genBoundary(r *rng.R, cw *casefile.Writer) {
 	w.emit(cw, "boundary", true)
 }
 
+// rebuild schedules: one cache gets 200..260 entries of size 70 in generation G0; rotation; a few of them are hit
+// (they move to the fresh generation G1 and survive); one or two loaders for new keys are parked in G1; a
+// cleaning pass marks G0 stale and deletes the rest: around the threshold "len*10 <= maxPayloadSize" the payload
+// map is (or is not) rebuilt while those loaders are running; then a second Get of each parked key arrives (it
+// must wait for the first loader, not load again), then the loaders return a value / an error / panic.
+func genRebuild(r *rng.R, cw *casefile.Writer) {
+	esz := int64(cache.NewCache[[]byte](nil, nil).VerifEntrySize())
+	n := r.Range(200, 260)
+	w := newWorld(uint64(70*n - 500))
+	w.do(Evt{Op: "new"})
+	if r.Chance(1, 3) {
+		w.do(Evt{Op: "new"})
+	}
+	w.do(Evt{Op: "fill", C: 0, K: 100, N: n, V: 1000, Sz: 70 - esz})
+	w.do(Evt{Op: "rotate"})
+	p := r.Range(1, 2)
+	thr := (n+p)/10 - p // survivors + parked <= (n+p)/10  <=>  rebuild
+	m := r.Intn(3)
+	if r.Chance(2, 3) {
+		m = thr - 2 + r.Intn(5)
+	}
+	if m < 0 {
+		m = 0
+	}
+	var v int64 = 5000
+	for j := 0; j < m && w.dead == ""; j++ {
+		v++
+		w.do(Evt{Op: "call", C: 0, K: 100 + j*3%n, V: v, Sz: 1, ErrAPI: r.Bool()})
+		if id := len(w.thr) - 1; w.dead == "" && w.thr[id].status == 10 { // (a reload if j*3%n repeats after a wrap: not here, m < n/3)
+			w.do(Evt{Op: "resume", T: id})
+		}
+	}
+	var creators []int
+	for k := 1; k <= p && w.dead == ""; k++ {
+		v++
+		e := Evt{Op: "call", C: 0, K: k, V: v, Sz: int64(r.Range(0, 60)), ErrAPI: r.Bool()}
+		switch x := r.Intn(10); {
+		case x < 6:
+			e.Kind = kVal
+		case x < 8:
+			e.Kind = kErr
+		default:
+			e.Kind = kPanic
+		}
+		w.do(e)
+		creators = append(creators, len(w.thr)-1)
+	}
+	w.do(Evt{Op: "cleanup"})
+	for k := 1; k <= p && w.dead == ""; k++ { // the second callers: must wait behind the parked creators
+		v++
+		w.do(Evt{Op: "call", C: 0, K: k, V: v, Sz: int64(r.Range(0, 60)), ErrAPI: r.Bool()})
+	}
+	if r.Chance(1, 3) {
+		w.do(Evt{Op: "gcgens"})
+	}
+	rng.Shuffle(r, creators)
+	for _, id := range creators {
+		if w.dead == "" && w.thr[id].status == 10 {
+			w.do(w.resumeEvt(r, id, true))
+		}
+	}
+	w.drain()
+	for i := r.Intn(3); i > 0 && w.dead == ""; i-- {
+		switch r.Intn(3) {
+		case 0:
+			w.do(Evt{Op: "cleanup"})
+		case 1:
+			w.do(Evt{Op: "rotate"})
+		default:
+			v++
+			w.do(Evt{Op: "call", C: 0, K: r.Range(1, 2), V: v, Sz: 5})
+			if id := len(w.thr) - 1; w.dead == "" && w.thr[id].status == 10 {
+				w.do(Evt{Op: "resume", T: id})
+			}
+		}
+	}
+	w.drain()
+	w.emit(cw, "payload-rebuild", true)
+}
+
 // exhaustive: n caches, every subset of them released (in the given order), then ReleaseBuckets
 // and the maintenance calls that show whether a live cache fell out of the cleaner's management
 func genReleaseSubset(cw *casefile.Writer, n int, mask int, order []int, lim uint64, newAt int) {
@@ -909,9 +1023,9 @@ func main() {
 	}
 	installHook()
 	r := rng.New(*seed)
-	nSeq, nConc, maxN := 1000, 1000, 5
+	nSeq, nConc, maxN, nRebuild := 1000, 1000, 5, 24
 	if *tier == "thorough" {
-		nSeq, nConc, maxN = 20000, 20000, 6
+		nSeq, nConc, maxN, nRebuild = 20000, 20000, 6, 600
 	}
 	witnesses(cw)
 	// exhaustive release subsets, ascending release order, for 1..maxN caches (6 in the thorough tier);
@@ -938,6 +1052,9 @@ func main() {
 	}
 	cw.Exhaust = true
 	cw.Extra["exhaustive_scope"] = fmt.Sprintf("every subset of released caches for 1..%d caches sharing a cleaner (every release order for <= 3 caches)", maxN)
+	for i := 0; i < nRebuild; i++ {
+		genRebuild(r, cw)
+	}
 	for i := 0; i < nSeq/4; i++ {
 		genBoundary(r, cw)
 	}
